@@ -26,11 +26,12 @@ SIGS = {}
 
 
 def _run_one(args):
-    ops, crypto = args
+    ops, crypto = args[0], args[1]
+    v6 = args[2] if len(args) > 2 else 0
     from ref.sysev_world import run_script
 
     try:
-        return run_script(ops, crypto_conns=crypto)
+        return run_script(ops, crypto_conns=crypto, v6=v6)
     except Exception as ex:  # noqa: BLE001
         import traceback
 
@@ -38,7 +39,7 @@ def _run_one(args):
 
 
 def run_impl(scripts, crypto_of=None, workers=12):
-    jobs = [(ops, tuple(crypto_of(i)) if crypto_of else ()) for i, ops in enumerate(scripts)]
+    jobs = [(ops, tuple(crypto_of(i)) if crypto_of else (), v6_of(i)) for i, ops in enumerate(scripts)]
     if len(jobs) < 40:
         return [_run_one(j) for j in jobs]
     with ProcessPoolExecutor(workers) as ex:
@@ -50,11 +51,16 @@ def judge(ops, res, which):
     return orc.oracle_c13(f) if which == "C13" else orc.oracle_c12(f)
 
 
-def shrink(ops, sig, which, crypto=()):
+def v6_of(i):
+    """every third script talks to IPv6 peers (asyncio reports 4-tuple peernames for them)"""
+    return 1 if i % 3 == 1 else 0
+
+
+def shrink(ops, sig, which, crypto=(), v6=0):
     def fails(cand):
         if not cand or cand[0] != ["advance", 1] or not orc.reuse_ok(cand):
             return False
-        r = _run_one((cand, crypto))
+        r = _run_one((cand, crypto, v6))
         if "crash" in r:
             return False
         try:
@@ -107,22 +113,24 @@ def evaluate(ctx: Ctx, scripts, which, compare_model=True, crypto_of=None, sampl
         for op in ops:
             st.hit("op", op[0])
         if "crash" in r:
-            ctx.fail(f"{which}:harness-crash", f"real code raised outside any handler: {r['crash']}", {"kind": "script", "ops": ops, "crypto": list(crypto_of(idx)) if crypto_of else []})
+            ctx.fail(f"{which}:harness-crash", f"real code raised outside any handler: {r['crash']}", {"kind": "script", "ops": ops, "crypto": list(crypto_of(idx)) if crypto_of else [], "v6": v6_of(idx)})
             continue
         verdicts = judge(ops, r, which)
         for sig, desc in verdicts:
             if not any(f.signature == sig for f in ctx.failures):
                 cr = tuple(crypto_of(idx)) if crypto_of else ()
-                small = shrink(ops, sig, which, cr)
-                rr = _run_one((small, cr))
+                small = shrink(ops, sig, which, cr, v6_of(idx))
+                rr = _run_one((small, cr, v6_of(idx)))
                 d2 = [d for s, d in judge(small, rr, which) if s == sig]
-                ctx.fail(sig, d2[0] if d2 else desc, {"kind": "script", "ops": small, "crypto": list(cr)})
+                ctx.fail(sig, d2[0] if d2 else desc, {"kind": "script", "ops": small, "crypto": list(cr), "v6": v6_of(idx)})
         ci = gen.canon_impl(r)
         closes = sum(1 for v in ci["log"].values() for e in v if e[1] == "close")
         events = sum(1 for v in ci["log"].values() for e in v if e[1] == "event")
         st.hit("outcome", "scripts-with-close" if closes else "scripts-without-close")
         if crypto_of and crypto_of(idx):
             st.hit("outcome", "scripts-over-real-session-cipher")
+        if v6_of(idx):
+            st.hit("outcome", "scripts-with-ipv6-4-tuple-peernames")
         if r.get("loop_errors"):
             st.hit("outcome", "scripts-with-exception-in-loop-callback")
             if len(st.notes) < 3:
@@ -170,7 +178,7 @@ def search(ctx: Ctx):
 
 def replay(ctx: Ctx, r, which="C13"):
     ops = r["ops"]
-    res = _run_one((ops, tuple(r.get("crypto", ()))))
+    res = _run_one((ops, tuple(r.get("crypto", ())), r.get("v6", 0)))
     if "crash" in res:
         print("real code crashed:", res["crash"])
         return 1
